@@ -1,7 +1,7 @@
 /* C15 harnesses: timer (src/timer.cpp).  See plans/c15.py for how each is run. */
 #include "timer_types.h"
 #include "timer_spec.h"
-#include "timer.h"          /* contracts (CBMC only) */
+#include "timer_contracts.h"
 #include "common.h"
 int verif_outcome;
 int ghost_timer_irq;
